@@ -109,5 +109,6 @@ Record vcfg := {
   f_w3c_pred_cv : bool;        (* W3C predicate names compared normalised *)
   f_group_unrevealed : bool;   (* legacy: a restricted group referent may be unrevealed *)
   f_group_keys : bool;         (* legacy: a revealed group shows exactly the requested names *)
-  f_w3c_nrp_search : bool      (* W3C: a credential lacking a required non-revocation proof serves a request only as a last resort *)
+  f_w3c_nrp_search : bool;     (* W3C: a credential lacking a required non-revocation proof serves a request only as a last resort *)
+  f_restr_revealed_first : bool  (* legacy: a referent listed as revealed AND unrevealed is restricted through the credential that reveals it *)
 }.
